@@ -422,7 +422,10 @@ def step (σ : St) (pre post : List String) : St × Verdict :=
         let model := validatorsByChain cur c
         let σ' := σ
         if σ.prop = "C21" && srt impl ≠ srt spec then
-          let sig := if srt impl = srt model && c.length < 2 then "chain-lookup-prefix-collision" else "chain-lookup-wrong"
+          -- the known finding is exactly: the result is the prefix scan, the entries filed under `c` itself are the
+          -- staked nodes declaring `c`, and the difference comes from keys of identifiers of another length
+          let sameLen := (cur.chainIdx.filter fun e => e.1 = c).map (·.2)
+          let sig := if srt impl = srt model && srt sameLen = srt spec then "chain-lookup-prefix-collision" else "chain-lookup-wrong"
           (σ', .propfail sig s!"lookup h={h} chain={rB c} impl={srt impl} staked-nodes-of-chain={srt spec}")
         else if srt impl ≠ srt model then (σ', .diff s!"lookup h={h} chain={rB c} impl={srt impl} model={srt model}")
         else (σ', .ok)
